@@ -30,7 +30,7 @@ RndCall(n) ==
     LET ch == Bag(<<"get", "get", "put", "put", "put", "put", "put", "putw", "putw", "http", "http", "http", "putother", "putwbad">>, n)
         ep == Bag(EpBag, n + 1)
         kf == IF ch = "http" THEN Bag(<<"plain", "plain", "plain", "qkey">>, n + 2)
-              ELSE Bag(<<"plain", "plain", "plain", "plain", "plain", "plain", "dotdot", "qkey", "escape", "empty">>, n + 2)
+              ELSE Bag(<<"plain", "plain", "plain", "plain", "plain", "plain", "dotdot", "qkey", "escape", "empty", "weird">>, n + 2)
         m == IF ch = "get" THEN "GET" ELSE IF ch = "http" THEN Bag(HttpMethods, n + 3) ELSE Bag(PutMethods, n + 3)
         data == IF ch = "get" THEN "none"
                 ELSE IF ch = "http" THEN (IF m \in {"POST", "PUT"} THEN Bag(<<"some", "some", "none">>, n + 4) ELSE "none")
@@ -56,13 +56,21 @@ RndPair(n) ==
 
 RndOp(s, n) ==
     LET f == Bag(<<"call", "call", "call", "call", "call", "call", "call", "call", "pair", "pair", "pair", "pair",
-                   "dev", "sub", "sub", "unsub", "login", "login">>, n) IN
+                   "dev", "sub", "sub", "unsub", "login", "login", "reset", "probe", "probe">>, n)
+        live == {k \in 1..2 : s.sess[k] > 0}
+        slot == IF live # {} /\ Rnd(1..5, n + 5) < 5 THEN Rnd(live, n + 6) ELSE Rnd(1..2, n + 7)
+        ck == IF slot = 1 THEN "s1" ELSE "s2" IN
     CASE f = "call"  -> RndCall(n + 100)
       [] f = "pair"  -> RndPair(n + 200)
       [] f = "dev"   -> [NullOp EXCEPT !.op = "dev", !.on = ~s.dev]
       [] f = "sub"   -> [NullOp EXCEPT !.op = "sub", !.s = Bag(<<"all", "one">>, n + 1)]
       [] f = "unsub" -> [NullOp EXCEPT !.op = "unsub", !.s = Bag(<<"all", "one">>, n + 2)]
       [] f = "login" -> [NullOp EXCEPT !.op = "login", !.slot = Rnd(1..2, n + 3), !.perm = Rnd(2..4, n + 4)]
+      \* the session flow of auth/reset: delete the session behind a cookie, look at what a cookie is still worth
+      [] f = "reset" -> [NullOp EXCEPT !.op = "call", !.ch = "http", !.ep = "reset", !.kf = "plain",
+                                        !.m = Bag(<<"GET", "GET", "HEAD", "POST">>, n + 8), !.cred = ck]
+      [] f = "probe" -> [NullOp EXCEPT !.op = "call", !.ch = "http", !.kf = "plain", !.m = "GET", !.cred = ck,
+                                        !.ep = Bag(<<"authperm", "authperm", "bearer", "basic", "echoU", "echoD", "echoS", "dyn", "modstatus">>, n + 9)]
 
 \* ---------------------------------------------------------------- breadth-first search
 BfsOps == {[NullOp EXCEPT !.op = "dev", !.on = b] : b \in BOOLEAN}
